@@ -702,3 +702,52 @@ Proof.
            change (mapM _ entries) with (mapM bydid_enc entries). rewrite Hx. eexists; reflexivity.
     + destruct (forallb bydid_ok entries); [|eexists; reflexivity]. cbn [guard bind ret]. rewrite validate_int_out by lia. eexists; reflexivity.
 Qed.
+
+(* ---- Authentication: the nine tasks, every present / absent / over-long parameter ------------------------------------ *)
+Lemma append_param_spec p : append_param p = match iso_l16 p with Some d => inr d | None => inl EValue end.
+Proof.
+  unfold append_param, iso_l16. destruct p as [b|]; [|reflexivity].
+  destruct (Z.of_nat (List.length b) <=? 65535) eqn:E.
+  - rewrite validate_int_in by lia. cbn [bind]. rewrite pack_H_ok by lia. reflexivity.
+  - rewrite validate_int_out by lia. reflexivity.
+Qed.
+Lemma algo16_spec a : algo16 a = match iso_raw16 a with Some d => inr d | None => inl EValue end.
+Proof. unfold algo16, iso_raw16. destruct a as [b|]; [|reflexivity]. destruct (Nat.eqb _ 16); reflexivity. Qed.
+Lemma oint_spec o hi : oint o 0 hi = match o with Some v => if in_u v hi then inr v else inl EValue | None => inl EValue end.
+Proof.
+  unfold oint, in_u. destruct o as [v|]; [|reflexivity].
+  destruct ((0 <=? v) && (v <=? hi)) eqn:E; [rewrite validate_int_in by lia|rewrite validate_int_out by lia]; reflexivity.
+Qed.
+
+Ltac au_cases :=
+  repeat match goal with
+         | |- context [match iso_l16 ?o with Some _ => _ | None => _ end] => destruct (iso_l16 o) eqn:?
+         | |- context [match iso_raw16 ?o with Some _ => _ | None => _ end] => destruct (iso_raw16 o) eqn:?
+         | |- context [match ?o with Some _ => _ | None => _ end] => is_var o; destruct o
+         | |- context [in_u ?v ?hi] => destruct (in_u v hi) eqn:?
+         end.
+
+Ltac au_body :=
+  rewrite ?oint_spec, ?append_param_spec, ?algo16_spec; unfold iso_cat, iso_opt; cbn [fold_right];
+  au_cases; cbn [bind ret fail]; try (eexists; reflexivity);
+  repeat (first [rewrite pack_B_enc by (unfold in_u in *; lia) | rewrite pack_H_ok by (unfold in_u in *; lia)]; cbn [bind ret]);
+  try (eexists; reflexivity);
+  rewrite ?app_nil_r; exists 41, true; (split; [in_iso|]); apply frame_mk_req_sub; [in_iso|lia].
+
+Theorem authentication_agrees st task a :
+  agrees st (auth_make task a)
+    (iso_authentication task (au_cfg a) (au_cert a) (au_chal a) (au_algo a) (au_evalid a) (au_certdata a) (au_pown a) (au_eph a) (au_add a)).
+Proof.
+  unfold auth_make, iso_authentication. unfold in_u at 1.
+  destruct ((0 <=? task) && (task <=? 8)) eqn:Et; [rewrite validate_int_in by lia|rewrite validate_int_out by lia; eexists; reflexivity].
+  cbn [bind].
+  destruct a as [cfg cert chal algo evalid certdata pown eph add].
+  cbn [au_cfg au_cert au_chal au_algo au_evalid au_certdata au_pown au_eph au_add].
+  destruct ((task =? 0) || (task =? 8)) eqn:E0;
+    [cbn [bind ret]; exists 41, true; split; [in_iso|]; apply frame_mk_req_sub_nodata; [in_iso|lia]|].
+  destruct ((task =? 1) || (task =? 2)) eqn:E1; [au_body|].
+  destruct (task =? 5) eqn:E5; [au_body|].
+  destruct (task =? 3) eqn:E3; [au_body|].
+  destruct (task =? 4) eqn:E4; [au_body|].
+  au_body.
+Qed.
